@@ -96,7 +96,7 @@ def body(ck, tier, runner):
     probes(ck, runner)
     rng = Rng(ck.seed * 2003 + 2)
     sd = SemDiff(ck, runner, "opt_on_off")
-    ndb = 60 if tier == "quick" else 2500
+    ndb = 200 if tier == "quick" else 2500
     for d in range(ndb):
         big = d % 20 == 19
         db = qgen.gen_db(rng, ntables=3, max_rows=rng.pick([6, 20, 40]), big=big)
